@@ -196,7 +196,8 @@ theorem oldSite {f : Forest} (w : f.W) (c : Nat) :
 structure MoveOk (f : Forest) (r : Forest × Res) (c : Nat) : Prop where
   ok : r.2 = .ok
   w : r.1.W
-  frame : ∃ P, Frame f r.1 P ∧ ∀ x ∈ P, c ∈ f.ancestors x ∨ f.nextSibling c = some x
+  frame : ∃ P, Frame f r.1 P ∧
+    ∀ x ∈ P, c ∈ f.ancestors x ∨ (f.nextSibling c = some x ∧ (f.textOf x).isSome = true)
 
 theorem MoveOk.corrupt {f : Forest} {r : Forest × Res} {c : Nat} (m : MoveOk f r c) :
     r.1.corrupt = f.corrupt := by
@@ -212,7 +213,7 @@ theorem moveOk_of_added {f f1 f2 : Forest} {c : Nat} {P : List Nat} (w : f.W)
   refine ⟨rfl, w2, P ++ [c], os.fr.trans fr2, ?_⟩
   intro x hx
   rcases List.mem_append.1 hx with h' | h'
-  · exact Or.inr (os.next x h').1
+  · exact Or.inr (os.next x h')
   · simp only [List.mem_singleton] at h'; subst h'
     exact Or.inl (self_mem_ancestors w hlc)
 
@@ -225,7 +226,7 @@ theorem moveOk_of_checked {f f1 : Forest} {c : Nat} {P : List Nat} (w : f.W)
   refine ⟨rfl, ck.w, P ++ handles tc, os.fr.trans (ck.frame tc hg), ?_⟩
   intro x hx
   by_cases hxP : x ∈ P
-  · exact Or.inr (os.next x hxP).1
+  · exact Or.inr (os.next x hxP)
   · rcases List.mem_append.1 hx with h' | h'
     · exact absurd h' hxP
     · left
